@@ -96,6 +96,17 @@ func (v *Val) UnmarshalJSON(b []byte) error {
 	return nil
 }
 
+// Fl is the float a Val of kind f stands for (JSON cannot carry infinities in F: S marks them).
+func (v Val) Fl() float64 {
+	switch v.S {
+	case "+inf":
+		return math.Inf(1)
+	case "-inf":
+		return math.Inf(-1)
+	}
+	return v.F
+}
+
 func VNil() Val           { return Val{K: "nil"} }
 func VS(s string) Val     { return Val{K: "s", S: s} }
 func VI(i int64) Val      { return Val{K: "i", I: i} }
@@ -159,7 +170,10 @@ func (v Val) ToGo() any {
 		}
 		return int(v.I)
 	case "f":
-		return v.F
+		if v.S == "32" {
+			return float32(v.F)
+		}
+		return v.Fl()
 	case "b":
 		return v.B
 	case "t":
@@ -240,7 +254,7 @@ func (v Val) String() string {
 		}
 		return strconv.FormatInt(v.I, 10)
 	case "f":
-		return strconv.FormatFloat(v.F, 'g', -1, 64) + "f"
+		return strconv.FormatFloat(v.F, 'g', -1, 64) + "f" + v.S
 	case "b":
 		return strconv.FormatBool(v.B)
 	case "t":
@@ -439,6 +453,12 @@ type embedStruct struct {
 	extra string
 }
 
+// a struct whose promoted fields (Name, Age, Tags) live behind a nil embedded pointer
+type embedNilPtr struct {
+	*PubStruct
+	Zip int
+}
+
 func Exotic(name string) any {
 	switch name {
 	case "named_map":
@@ -485,6 +505,10 @@ func Exotic(name string) any {
 		return &PubStruct{Name: "n", Age: 3}
 	case "embed_struct":
 		return embedStruct{PubStruct: PubStruct{Name: "e"}, extra: "x"}
+	case "embed_nil_ptr":
+		return embedNilPtr{Zip: 7}
+	case "embed_nil_ptr_ptr":
+		return &embedNilPtr{Zip: 7}
 	case "typed_nil_ptr":
 		return (*PubStruct)(nil)
 	case "typed_nil_strptr":
@@ -632,4 +656,5 @@ var ExoticNames = []string{
 	"slice_of_maps", "slice_of_nil", "nested_empty_slices", "time_zero", "time_ptr", "duration", "error", "stringer_nilptr",
 	"struct_empty", "uintptr", "reflect_value",
 	"ptr_to_nil_ptr_struct", "ptr_ptr_to_nil_map", "ptr_to_nil_ptr_string", "ptr_to_nil_slice", "ptr_to_nil_map",
+	"embed_nil_ptr", "embed_nil_ptr_ptr",
 }
